@@ -18,6 +18,14 @@ CHECKS = {
    text="Descriptor-table audit (fd -> identity, FD_CLOEXEC) by the supervisor thread before and after every generated call, success and error paths, Rust and C API, six kernel configurations: after = before + at most the returned close-on-exec descriptor; lent descriptors unchanged. The same judge runs inside the fault-injection and attacker drivers.",
    note="Audits descriptor numbers < 128 at call boundaries; tolerates the library's single process-lifetime procfs root (ino 1, close-on-exec).",
    technique="property-based testing (proptest) with a before/after descriptor-table invariant taken by a seccomp supervisor"),
+ "C02": dict(level="exploration", ref="DESIGN.md §3 C02, §2.6",
+   text="Generated tree x lookup x backend x attacker schedule, where the attacker's mutations are executed by a seccomp supervisor exactly before chosen system calls of the library (for a single mutation EVERY placement point of the lookup's own trace is enumerated, each on a fresh tree; multi-mutation and flip-flop schedules sampled). Oracle: the returned descriptor / link body belongs to an object that was inside the root at some moment of the call (snapshots unioned around every mutation). Search over generated trees and mutations; exhaustive only over placements of one mutation per generated case.",
+   note="Pre-emption granularity = the library's own syscalls (the property's quantifier); races inside one openat2 call are not controllable this way; descriptor-local syscalls are not placement points (they commute with tree mutations).",
+   technique="property-based testing with a deterministic attacker scheduled at syscall boundaries (seccomp user-notification gate), exhaustive placement enumeration per case"),
+ "C03": dict(level="exploration", ref="DESIGN.md §3 C03",
+   text="Generated tree x one mutating operation (all kinds, escaping/'..'-final/absolute argument paths) x backend, alone and under the syscall-boundary attacker (all placements of one mutation, or sampled multi-mutation schedules); frame condition over the whole sandbox: nothing that was never inside the root is removed, replaced, modified or gains an entry, and returned descriptors lie below ever-inside directories.",
+   note="nlink and time stamps not compared; attacker's own objects are excluded by name; pre-emption granularity = library syscalls.",
+   technique="property-based testing with whole-sandbox snapshot frame condition and syscall-boundary attacker (seccomp gate)"),
 }
 NOT_YET = {}
 ALL = ["C%02d" % i for i in range(1, 19)]
